@@ -30,12 +30,15 @@ def one_case(ctx, res, stream, files, verbose):
     mo = T.parse_outcome(ans[0])
     case = {"files": [(n, len(c)) for n, c in files], "verbose": verbose}
     st.see(case, nontrivial=len(files) > 0)
-    st.compared += 1
+    if mo is None:
+        st.unmodelled += 1
+    else:
+        st.compared += 1
     res.count(f"files={min(len(files), 9)}")
     if any(len(T.split_source(n)[0]) > 8 or len(T.split_source(n)[1]) > 3 for n, _ in files):
         res.count("overlong_name")
     impl_writes = [("t.k7", tape)] if tape is not None else []
-    if (status, out, impl_writes) != (mo["status"], mo["out"], mo["writes"]):
+    if mo is not None and (status, out, impl_writes) != (mo["status"], mo["out"], mo["writes"]):
         res.disagree(stream, case, {"status": mo["status"], "out": mo["out"]}, {"status": status, "out": out})
     if status != "ok0" or tape is None:
         res.violate(stream, "create failed although the sources fit", case, {"status": status}, {"clause": "create_status"})
@@ -73,9 +76,12 @@ def frontier_case(ctx, res, files):
     mo = T.parse_outcome(ans[0])
     case = {"files": [(n, len(c)) for n, c in files], "enc_size": T.enc_size([c for _, c in files])}
     st.see(case)
-    st.compared += 1
+    if mo is None:
+        st.unmodelled += 1
+    else:
+        st.compared += 1
     impl_writes = [("t.k7", tape)] if tape is not None else []
-    if (status, out, impl_writes) != (mo["status"], mo["out"], mo["writes"]):
+    if mo is not None and (status, out, impl_writes) != (mo["status"], mo["out"], mo["writes"]):
         res.disagree(stream, case, {"status": mo["status"], "out": mo["out"]}, {"status": status, "out": out})
     if tape is None:
         return
